@@ -58,6 +58,10 @@ func (f *ReturnFrom) Call(s *slip.Scope, args slip.List, depth int) slip.Object 
 	}
 	if 1 < len(args) {
 		rr.Result = slip.EvalArg(s, args, 1, depth+1)
+		if _, ok := rr.Result.(slip.NonLocalExit); ok {
+			// Control left while the value was being evaluated.
+			return rr.Result
+		}
 	}
 	return &rr
 }
